@@ -189,3 +189,10 @@ PROPS = {
         ],
     ),
 }
+
+
+# Build target as a configuration dimension: every fourth shard of every property runs the harness
+# built for GOARCH=386 (32-bit words: uint, int and big.Word are 32 bits wide, 64-bit atomics need
+# alignment, 32 lanes per machine word). C06 and C20 already list their variants explicitly.
+for _pid, _cfg in PROPS.items():
+    _cfg.setdefault("variants", [[], [], [], ["GOARCH=386"]])
